@@ -1,4 +1,5 @@
 import GitSizer.Proofs.GraphCommits
+import GitSizer.Proofs.GraphTags
 /-! # C03 — History depth and tag depth equal the longest chains -/
 namespace GitSizer.C03
 open GitSizer GitSizer.Spec GitSizer.Graph Gen
@@ -27,6 +28,27 @@ theorem history_depth_is_max (h : HistorySize) (oid : Nat) (cs : CommitSize) (si
 theorem tag_depth_is_max (h : HistorySize) (oid : Nat) (ts : TagSize) (size : BitVec 32) :
     (HistorySize.recordTag h oid ts size).MaxTagDepth.toNat = max h.MaxTagDepth.toNat ts.TagDepth.toNat :=
   (recordTag_numbers h oid ts size).2
+
+/-- **tag depth, any enumeration order**: for every duplicate-free order of a set of tags closed
+    under tag → tag edges — referent tags delivered before or after the tags that point at them —
+    every tag's memo is `clamp32` of the number of annotated tag objects on its chain, and no
+    record remains -/
+theorem tag_memo (r : Repo) (wf : TagsWF r) (kinds : ∀ t o, r.tagRef t = some (o, true) → (r.tagRef o).isSome)
+    (ds : List Nat) (hnd : ds.Nodup) (areTags : ∀ t ∈ ds, (r.tagRef t).isSome)
+    (closed : ∀ t ∈ ds, ∀ e ∈ tagKids r t, e.2 ∈ ds) (fuel : Nat) (hfuel : Agg.K (PT r) ds ≤ fuel) :
+    ∀ t ∈ ds, ∃ s, (Agg.run (PT r) fuel ds Agg.init).sizes t = some s ∧ s.TagDepth.toNat = clamp c32 (tagDepthN r t) :=
+  (tag_memo_is_depth r wf kinds ds hnd areTags closed fuel hfuel).1
+
+/-- the true tag depth counts the tag objects on the (unique) chain tag → tag → … → non-tag -/
+theorem tag_depth_unfold (r : Repo) (wf : TagsWF r) (t o : Nat) (h : r.tagRef t = some (o, true)) :
+    tagDepthN r t = 1 + tagDepthN r o := by
+  have hlt : o < t := wf t (0, o) (by
+    rcases tagKids_cases r t with ⟨o', ho', hk⟩ | ⟨hn, _⟩
+    · rw [hk]; rw [h] at ho'; simp at ho'; simp [ho']
+    · exact absurd h (hn o))
+  conv => lhs; unfold tagDepthN
+  simp only [tagDepthF, h]
+  rw [tagDepthF_stable r wf o t hlt]
 
 /-- non-vacuity: a criss-cross merge history with two roots -/
 def demo : Repo := [.tree 0 [], .commit 1 0 [], .commit 1 0 [], .commit 1 0 [1, 2], .commit 1 0 [2, 1], .commit 1 0 [3, 4]]
